@@ -94,6 +94,29 @@ CHECKS = {
              "of their lines). Real DiagramRule evaluations (both modes, both naming options, bystanders and sub modules) "
              "on emitted states and seeded random worlds are validated for verdict and complete aggregated message.",
         design_ref="6 (C07)"),
+    "C02": dict(
+        technique="TLA+ specification of import resolution (Scan!Named / MustImports / MayImports) in which a statement's "
+                  "position does not occur; TLC enumerates every statement-list position of the running interpreter's "
+                  "grammar x import form (MC_Positions) and every project of a bounded model (MC_Scan); each is rendered "
+                  "to real source files, scanned by the real entry point and validated by Trace_Scan.tla",
+        text="What an import statement names (plain, aliased, multi-name, from-name, from-submodule, star, relative levels, "
+             "inside __init__) is a TLA+ operator; TLC checks position-independence and the one-statement-adds-exactly-its-"
+             "edges law on the model. Every stack of statement-list slots up to the tier's depth (slots enumerated from "
+             "ast.<Class>.__doc__) x 9 forms is rendered into source (re-parsed and cross-checked with ast.walk), scanned "
+             "with get_evaluable_architecture and the import set compared as must <= observed <= may; each placement "
+             "imports its own target so a lost edge names its position. Seeded random projects add mixed forms and depths.",
+        design_ref="6 (C02)"),
+    "C04": dict(
+        technique="TLA+ specification of scanning (Scan!InternalMods, RestrictArch) with the sub-scan / restriction and "
+                  "entry-point laws model-checked on MC_Scan; every emitted project and seeded random trees are written "
+                  "to disk, scanned through both entry points with every module_path, validated by Trace_Scan.tla",
+        text="Modules = one per non-excluded .py file and directory at or below module_path, named from root_path's "
+             "directory name, plus the ancestors of module_path; TLC checks on every project of the bounded model (sibling "
+             "names a/ab) that scan(sub) = scan(root) restricted to the sub tree and that parent-relative absolute names "
+             "resolve in the sub scan. Each emitted project x every module_path x both entry points, and seeded random trees "
+             "(depth <= 5, with and without __init__.py, prefix siblings, odd file names) are scanned by the real code; "
+             "module set, import set, the restrict law, the entry-point law and 'sub modules of' verdicts are validated.",
+        design_ref="6 (C04)"),
     "C14": dict(
         technique="TLA+ names are component sequences compared only by equality/IsPrefix; TLC checks that RuleSem "
                   "commutes with injective renamings on the bounded model; on the real code every abstract case is "
